@@ -25,6 +25,7 @@ type simNet struct {
 	portPlan  []int          // ports handed out for RequestedPort == 0 (front first); empty = counter
 	failBind  bool           // next bind fails
 	dropWrite func(from, to net.Addr, b []byte) bool
+	writeHook func(from, to net.Addr, b []byte) error // called for every datagram write; an error fails the write
 }
 
 func newSimNet() *simNet {
@@ -115,7 +116,13 @@ func (p *simPC) WriteTo(b []byte, to net.Addr) (int, error) {
 	p.n.mu.Lock()
 	dst := p.n.udp[ua.String()]
 	drop := p.n.dropWrite
+	hook := p.n.writeHook
 	p.n.mu.Unlock()
+	if hook != nil {
+		if err := hook(p.addr, to, b); err != nil {
+			return 0, err
+		}
+	}
 	if drop != nil && drop(p.addr, to, b) {
 		return len(b), nil
 	}
